@@ -217,7 +217,7 @@ class _CutRun(object):
         if n and watches is self.watches:
             # a retry handler: when this command fails, its errback submits n commands at once
             def retry(f):
-                if f.type.__name__ != "TorDisconnectError":
+                if not _is_disconnect(f):
                     return f        # only losses are retried; a 5xx before the loss is not
                 for _ in range(n):
                     self.resubmitted += 1
@@ -318,12 +318,18 @@ def _judge(case, cut, res):
     return r
 
 
+def _is_disconnect(f):
+    """a disconnect error: TorDisconnectError or a subclass of it"""
+    from txtorcon.torcontrolprotocol import TorDisconnectError
+    return f.check(TorDisconnectError) is not None
+
+
 def _expect_disconnect(res, w, what, where, cls):
     if w.fired == 0:
         res.bad("never-fires/" + cls, "%s never fired%s" % (what, where))
     elif w.fired > 1:
         res.bad("fires-twice/" + cls, "%s fired %d times%s" % (what, w.fired, where))
-    elif not w.failed or w.failure.type.__name__ != "TorDisconnectError":
+    elif not w.failed or not _is_disconnect(w.failure):
         res.bad("not-disconnect-error/" + cls, "%s: %r%s" % (what, w.outcome(), where))
 
 
